@@ -44,7 +44,7 @@ struct C05 : Property
 		return {"put.last_reference_frees", "put.not_last_reference", "cascade.children_destroyed_with_parent", "child_outlives_parent", "replace.releases_old_value", "replace.same_key_twice",
 		        "delete.member_with_extra_ref_survives", "array.put_over_occupied_slot", "array.del_range_releases", "array.out_of_range_refused", "object.self_add_refused",
 		        "userdata.replaced_callback_runs", "deep_copy.ok", "pointer_set.ok", "pointer_set.failed_value_kept", "patch.ok", "patch.failed", "patch.copy_from", "shared_node_in_two_containers",
-		        "alloc_failure.value_kept_by_caller", "parse.tree_from_parser", "userdata.same_pointer_reinstalled", "object.filled_past_growth_threshold", "deep_copy.refused_midway_unwound"};
+		        "alloc_failure.value_kept_by_caller", "parse.tree_from_parser", "userdata.same_pointer_reinstalled", "object.filled_past_growth_threshold", "deep_copy.refused_midway_unwound", "userdata.deleter_with_null_userdata"};
 	}
 
 	// ------------------------------------------------------------------ generation
@@ -105,6 +105,7 @@ struct C05 : Property
 		// per-op observations
 		std::vector<int64_t> freed_ids;           // free(node) seen at the allocator seam
 		std::vector<int64_t> callback_tokens;     // userdata delete callbacks
+		std::map<void *, int64_t> nullud_token;   // node -> token of a deleter installed with userdata == NULL
 		int track_pct = 50;
 		uint64_t trk = 12345;
 		std::vector<std::pair<void *, int64_t>> pending_copy_tokens; // tokens installed by the tracking shallow copy in this op
@@ -133,6 +134,16 @@ struct C05 : Property
 		HarnessScope hs;
 		if (g_st)
 			g_st->callback_tokens.push_back((int64_t)(intptr_t)ud);
+	}
+	// a deleter installed with a NULL userdata pointer (allowed: "userdata" and "user_delete" are independent): identified by the node
+	static void on_delete_nullud(struct json_object *jso, void *ud)
+	{
+		HarnessScope hs;
+		if (g_st)
+		{
+			auto it = g_st->nullud_token.find((void *)jso);
+			g_st->callback_tokens.push_back(ud == nullptr && it != g_st->nullud_token.end() ? it->second : (int64_t)-777);
+		}
 	}
 	static int cmp_by_type_then_address_free(const void *a, const void *b)
 	{
@@ -436,7 +447,7 @@ struct C05 : Property
 					case 2: o = json_object_new_int64(op.arg(2) * 11); break;
 					case 3: o = json_object_new_string("short"); break;
 					case 4: o = json_object_new_boolean(1); break;
-					case 5: o = json_object_new_double(0.5); break;
+					case 5: o = (op.arg(2) & 1) ? json_object_new_double_s(2.5, "2.50") : json_object_new_double(0.5); break;
 					default: o = json_object_new_string("a considerably longer string value that lives in a heap buffer once it is set"); break;
 					}
 					s.handles[(size_t)slot] = o;
@@ -691,7 +702,14 @@ struct C05 : Property
 						int64_t tok = same ? s.token_of[id] : s.next_token++;
 						if (same)
 							ctx.probe("userdata.same_pointer_reinstalled");
-						LIBV(json_object_set_userdata(n, (void *)(intptr_t)tok, on_delete));
+						if (!same && op.arg(1) % 5 == 4)
+						{
+							LIBV(json_object_set_userdata(n, nullptr, on_delete_nullud)); // (runs the previous deleter first)
+							s.nullud_token[(void *)n] = tok;
+							ctx.probe("userdata.deleter_with_null_userdata");
+						}
+						else
+							LIBV(json_object_set_userdata(n, (void *)(intptr_t)tok, on_delete));
 						s.token_of[id] = tok;
 					}
 				}
@@ -737,8 +755,14 @@ struct C05 : Property
 						std::set<void *> sub;
 						collect(n, sub);
 						for (void *x : sub)
+						{
 							if (LIB(json_object_get_userdata((struct json_object *)x)) != nullptr && LIB(json_object_get_type((struct json_object *)x)) != json_type_double)
 								has_foreign_userdata = true;
+							// (a deleter installed with a NULL userdata pointer is serializer data the default copier does not know either)
+							auto kn = s.known.find(x);
+							if (kn != s.known.end() && s.token_of.count(kn->second))
+								has_foreign_userdata = true;
+						}
 					}
 					int rc = LIB(json_object_deep_copy(n, &dst, use_default ? nullptr : tracking_shallow_copy));
 					if (rc == 0 && dst)
@@ -795,7 +819,7 @@ struct C05 : Property
 			}
 			else if (op.kind == "patch")
 			{
-				static const char *patches[14] = {
+				static const char *patches[17] = {
 				    "[{\"op\":\"add\",\"path\":\"/k0\",\"value\":[1,{\"z\":2}]}]",
 				    "[{\"op\":\"remove\",\"path\":\"/k0\"}]",
 				    "[{\"op\":\"replace\",\"path\":\"/k1\",\"value\":\"r\"},{\"op\":\"remove\",\"path\":\"/k2\"}]",
@@ -807,6 +831,9 @@ struct C05 : Property
 				    "[{\"op\":\"remove\",\"path\":\"\"}]",
 				    "[{\"op\":\"move\",\"from\":\"/k1\",\"path\":\"/k1\"},{\"op\":\"copy\",\"from\":\"/k0\",\"path\":\"/k0/x\"}]",
 				    "[]",
+				    "[{\"op\":\"copy\",\"from\":\"/k1/k0\",\"path\":\"/k1\"}]",
+				    "[{\"op\":\"copy\",\"from\":\"/k0\",\"path\":\"\"}]",
+				    "[{\"op\":\"move\",\"from\":\"/k1/k0\",\"path\":\"/k1\"},{\"op\":\"copy\",\"from\":\"/0/0\",\"path\":\"/0\"}]",
 				    "[{\"op\":\"copy\",\"from\":\"/k0\",\"path\":\"/k1/zz/q\"}]",
 				    "[{\"op\":\"copy\",\"from\":\"/0\",\"path\":\"/9\"},{\"op\":\"move\",\"from\":\"/1\",\"path\":\"/k0\"}]",
 				    "[{\"op\":\"test\",\"path\":\"\",\"value\":0},{\"op\":\"add\",\"path\":\"/k7\",\"value\":null}]"};
@@ -819,7 +846,7 @@ struct C05 : Property
 					skipped = true; // move/copy inside a document that shares nodes between branches can close a cycle: JSON patch is defined on trees
 				else
 				{
-					std::string t = std::string(patches[op.arg(2) % 14]) + std::string(1, '\0');
+					std::string t = std::string(patches[op.arg(2) % 17]) + std::string(1, '\0');
 					disarm_faults(); // the patch document itself is built without faults
 					struct json_tokener *tok = new_tok(32, 0);
 					ExactBuf b(t);
